@@ -494,6 +494,11 @@ fn c19_batches(out_single: &[SpanRecord]) -> Vec<Vec<SpanRecord>> {
         b.insert(pos, rec(0xB16, 99, 0, NOW, 1_000, "huge", &[("payload", &huge)], &[]));
         v.push(b);
     }
+    // many distinct traces in one batch (the collector merges every trace that finishes within
+    // one report interval into one report call)
+    for n in [15u64, 16, 17, 40, 300] {
+        v.push((0..n).map(|i| rec((0xD00 + i) as u128 | ((i as u128) << 64), i + 1, 0, NOW + i, 1_000 + i, &format!("t{i}"), &[("k", "v")], &[])).collect());
+    }
     let large: Vec<SpanRecord> = (0..1000u64).map(|i| rec(0xABCD, i + 1, i, NOW + i, i * 1_000, &format!("span{i}"), &[("i", &i.to_string())], &[])).collect();
     v.push(large);
     v
